@@ -245,3 +245,12 @@ Definition ops_post_event (e : post_event) : list lop :=
   end.
 Definition ops_read_events (evs : list post_event) : list lop :=
   [Acq L_in] ++ flat_map ops_post_event evs ++ [Rel L_in].
+
+(* ---------- readServerCertificate after the message is in hand (handshake_client_tls13.go:817-840) ----------
+   certMsg came off the wire or out of decompressCert (from_compressed = skipWritingCertToTranscript).  The emptiness test (:823-826)
+   applies to BOTH; only the transcript write is skipped for a decompressed message.  verifyServerCertificate then starts with
+   certs[0] (handshake_client.go, `for i, asn1Data := range certificates` and `certs[0]` for the leaf). *)
+Definition a_decode_error : N := 50.
+Definition cert_checks (from_compressed : bool) (ncerts : nat) : res unit :=
+  if (ncerts =? 0)%nat then Err a_decode_error                    (* "tls: received empty certificates message" *)
+  else if (0 <? ncerts)%nat then Ok tt else Panic P_INDEX.       (* certs[0] *)
